@@ -3,6 +3,7 @@ import MidnightZK.Model.C20.Ipa
 import MidnightZK.Model.C20.Group
 import MidnightZK.Model.C20.Gadget
 import MidnightZK.Model.C01.Parse
+import MidnightZK.Model.C20.AccIO
 /-! Line-protocol handler of property C20. -/
 namespace MidnightZK.C20.Driver
 open MidnightZK MidnightZK.C20
@@ -47,8 +48,42 @@ def gadgetAnswer (op : String) (rest : List String) : String :=
     else toString (gadgetProofLen sh nc lens)
   | _, _, _ => "bad-op"
 
+/-- Requests about the off-circuit accumulator types. -/
+def accAnswer (ws : List String) : String :=
+  match ws with
+  | ["msm-awr", r, a, b] =>
+    match parseNat? r, parseMsm? a, parseMsm? b with
+    | some r, some a, some b => fmtMsm (a.accumulateWithR b (fr r))
+    | _, _, _ => "bad-op"
+  | ["msm-eval", fb, m] =>
+    match parseFixed? fb, parseMsm? m with
+    | some fb, some m =>
+      -- `msm_best` on an empty vector of terms is the identity
+      match evalMsm? fb m with
+      | some d => fmtPoint d
+      | none => "panic"
+    | _, _ => "bad-op"
+  | ["msm-collapse", m] =>
+    match parseMsm? m with
+    | some m =>
+      let c := m.collapse
+      s!"{",".intercalate (c.bases.map fmtPoint)};{fmtHexList (c.scalars.map (·.val))}"
+    | none => "bad-op"
+  | "acc-accumulate" :: r :: accs =>
+    match parseNat? r, accs.mapM parseAcc? with
+    | some r, some accs =>
+      match Acc.accumulate accs (fr r) with
+      | some a => fmtAcc a
+      | none => "panic"
+    | _, _ => "bad-op"
+  | _ => "bad-op"
+
 def answer (line : String) : String :=
   match words line with
+  | "msm-awr" :: _ => accAnswer (words line)
+  | "msm-eval" :: _ => accAnswer (words line)
+  | "msm-collapse" :: _ => accAnswer (words line)
+  | "acc-accumulate" :: _ => accAnswer (words line)
   | "gadget-sched" :: rest => gadgetAnswer "gadget-sched" rest
   | "gadget-prooflen" :: rest => gadgetAnswer "gadget-prooflen" rest
   | ["ipa-sched", side, len] =>
